@@ -6,7 +6,7 @@ From Coq Require Import DecimalN DecimalZ DecimalFacts.
 Export ListNotations.
 Open Scope N_scope.
 
-Definition str := list N.
+Notation str := (list N) (only parsing).
 
 (* ---------- generic decidable equality on lists / options / pairs ---------- *)
 
